@@ -320,10 +320,12 @@ def p_conveyor(thorough=False, H=10, timeout=150):
             wps = [{"targets": [0], "cap": 1, "facs": [{"skills": {"0": 1}}]},
                    {"targets": [1], "cap": 1, "facs": [{"skills": {"1": 1}}], "inputs": [0]},
                    {"targets": [2], "cap": 1, "facs": [{"skills": {"2": "$fs2"}}], "inputs": [1]}]
-            ws = [{"skills": {"0": 1, "1": "$s1", "2": 1}, "fskills": {"0": 1, "1": 1, "2": 1}} for _ in range(2)]
+            # worker 0 has a personal absence step; worker 1's skill for the middle task is symbolic as well (0 = only worker 0 can do it)
+            ws = [{"skills": {"0": 1, "1": "$s1", "2": 1}, "fskills": {"0": 1, "1": 1, "2": 1}, "abs": ["$a0"]},
+                  {"skills": {"0": 1, "1": "$s11", "2": 1}, "fskills": {"0": 1, "1": 1, "2": 1}}]
             spec = {"tasks": tasks, "edges": [[0, 1, k], [0, 2, 0]], "teams": [_team(ws, [0, 1, 2])], "wps": wps, "comps": [{"size": 1}], "run": {"max_time": H}}
             obs.append({"name": "prod/conveyor/k=%s/wprule=%d" % (KN[k], wprule), "harness": "sim", "cube": {"spec": spec},
-                        "params": [["w0", 1, 2], ["w1", 1, 3 if thorough else 2], ["w2", 1, 2], ["s1", 0, 2], ["fs2", 0, 1]], "timeout": timeout})
+                        "params": [["w0", 1, 2], ["w1", 1, 3 if thorough else 2], ["w2", 1, 2], ["s1", 0, 2], ["s11", 0, 1], ["fs2", 0, 1], ["a0", -1, 3]], "timeout": timeout})
     return obs
 
 
